@@ -1,13 +1,11 @@
-(** Boolean classifiers of the known findings of C15 / C16 (one per `known:` line of
+(** Boolean classifiers of the known findings of C16 (one per `known:` line of
     /verif/known-findings.txt).  The property theorems exclude exactly these classes; the
-    run-time checks evaluate the same functions. *)
+    run-time checks evaluate the same functions.
+    C15 has no known finding left: its former class prefix-trailing-slash (S3 prefix given
+    as "pre/") was repaired by /repo commit 1405318 (S3Client::new trims the prefix,
+    s3.rs:741, modelled by S3.client_prefix); its classifier was removed. *)
 From Rocfl Require Import Base.Bytes Generated.Consts Model.S3.
 Open Scope N_scope.
-
-(** C15: the S3 prefix was given with a trailing slash.  S3Client::new keeps the raw value
-    (s3.rs:741) while prefix_offset assumes "prefix + one slash" (s3.rs:780-784): every
-    listing strips one character too many. *)
-Definition c15_prefix_trailing_slash (cprefix : bytes) : bool := last_is_slash cprefix.
 
 (** C16: the fault hits the PUT of the root sidecar or a later request (declaration swap of an
     upgrade) of write_new_version.  do_with_rollback then deletes the root inventory.json that
